@@ -15,6 +15,7 @@ from typing import Any, Callable
 import numpy as np
 import pandas as pd
 from pandas.api.types import (
+    is_bool_dtype,
     is_datetime64_dtype,
     is_number,
     is_numeric_dtype,
@@ -139,6 +140,11 @@ class Stairs:
 
         if not values.index.is_monotonic_increasing:
             raise ValueError("Series index must be monotonic")
+
+        if is_bool_dtype(values):
+            # booleans are the numbers 0 and 1; kept as bool the arithmetic operators
+            # (negation in particular) and the NaN checks do not treat them as such
+            values = values.astype("float64")
 
         series_values_inf_mask = np.isinf(values)
         if series_values_inf_mask.any():
